@@ -83,6 +83,15 @@ fn judge_canon(ctx: &Ctx, c: &Canon, st: &mut Stats) {
             Err(pn) => { viol(ctx, &format!("panic@{}", pn.file()), &format!("{input} [{from}->{to}]"), case.clone(), format!("{} at {}", pn.message, pn.location)); None }
         }
     };
+    // an --output-prefix (or any other presentation option) must not bypass the representability check
+    if !fits32 {
+        st.inc("renders");
+        match zv::run_cli(&["render", "-f", "semver", "--output-format", "pep440", "--output-prefix", "v", "--", &s], None) {
+            Ok(Res::Ok(got)) => if got != format!("v{p}") { viol(ctx, "semver_to_pep440_silent_change", &format!("{s} [semver->pep440 --output-prefix v]"), case.clone(), format!("rendered {got:?}, expected an error or {:?}", format!("v{p}"))); },
+            Ok(_) => st.inc("out_of_range_rejected"),
+            Err(pn) => viol(ctx, &format!("panic@{}", pn.file()), &format!("{s} [prefix]"), case.clone(), pn.message),
+        }
+    }
     step("semver_to_semver", &s, "semver", "semver", &s, fits64, st);
     step("semver_to_semver_auto", &s, "auto", "semver", &s, fits64, st);
     if let Some(pp) = step("semver_to_pep440", &s, "semver", "pep440", &p, fits32, st) {
